@@ -38,7 +38,9 @@ class EntRequestParams:
     def __post_init__(self) -> None:
         # The number of pairs is used as a plain integer (in `range`, as a length):
         # a value that behaves like an int (a Future that has its value) is converted once.
-        self.number = int(self.number)
+        # (only integers: a float or a string is not silently turned into a number of pairs)
+        if isinstance(self.number, int):
+            self.number = int(self.number)
 
 
 # Indices of Create Request arguments in serialized NetQASM array
